@@ -18,7 +18,7 @@ for id in $ids; do
   if [ -n "$cfile" ]; then cp "$cfile" /tmp/keep.$$; patch -s "$cfile" $d/patch.diff || { echo "$id patch-failed"; cp /tmp/keep.$$ "$cfile"; continue; }; build "$cfile"
   else git apply $d/patch.diff || { echo "$id patch-failed"; git checkout -q -- .; continue; }; fi
   PYTHONPATH=$wt/src /venv/bin/python $d/demo.py >/dev/null 2>&1; demo=$?
-  (cd /verif && PYTHONPATH=$wt/src timeout 2400 ./check $prop --tier quick --no-build > /tmp/reseed_$id.log 2>&1); rc=$?
+  (cd /verif && VERIF_EVIDENCE_DIR=/tmp/verif-evidence-mutated PYTHONPATH=$wt/src timeout 2400 ./check $prop --tier quick --no-build > /tmp/reseed_$id.log 2>&1); rc=$?
   nv=$(grep -c '^VIOLATION' /tmp/reseed_$id.log)
   case $rc in 1) [ "$nv" -gt 0 ] && v=caught || v=machinery;; 0) v=MISSED;; *) v=machinery;; esac
   echo "$id $v (exit $rc, $nv VIOLATION lines, demo exit $demo)"
